@@ -682,5 +682,36 @@ pub fn run_c02(out: &mut Out, tier: &str, seed: u64, _scratch: &str) {
         out.case(&format!("c02 project {} {expected}", layout.join(",")), &real);
         let _ = std::fs::remove_dir_all(&root);
     }
+    // a multi-file probe: a pub item of an imported module that the import does not name, used by its bare name —
+    // the checker accepts it (every pub declaration of a dependency is registered), the generated `use` lines name
+    // only what was imported
+    {
+        let root = "/verif/.build/batch/c02projx";
+        let _ = std::fs::remove_dir_all(root);
+        std::fs::create_dir_all(format!("{root}/src")).expect("mkdir");
+        std::fs::write(format!("{root}/src/helper.incn"), "pub def named(v: int) -> int:\n    return v + 1\n\npub def unnamed(v: int) -> int:\n    return v + 2\n").expect("write");
+        let main = "from helper import named\n\ndef main() -> None:\n    println(named(1) + unnamed(1))\n";
+        std::fs::write(format!("{root}/src/main.incn"), main).expect("write");
+        let verdict = {
+            let entry = format!("{root}/src/main.incn");
+            let r = crate::util::catch(|| -> String {
+                let Ok(modules) = incan::cli::commands::collect_modules(&entry) else { return "reject".to_string() };
+                let Some(mainm) = modules.last() else { return "reject".to_string() };
+                let deps: Vec<(&str, &incan_syntax::ast::Program)> = modules[..modules.len() - 1].iter().map(|m| (m.name.as_str(), &m.ast)).collect();
+                let mut tc = incan::frontend::typechecker::TypeChecker::new();
+                match tc.check_with_imports(&mainm.ast, &deps) { Ok(()) => "accept".to_string(), Err(_) => "reject".to_string() }
+            });
+            r.unwrap_or_else(|m| format!("panic {m}"))
+        };
+        let real = if verdict == "accept" {
+            let o = runner::build_project(&format!("{root}/src/main.incn"), &format!("{root}/out"), "/verif/.build/batch-target-proj");
+            match &o {
+                Outcome::Ran { stdout, code: 0, .. } => format!("accept built {}", stdout.trim()),
+                other => format!("accept {}", runner::show(other)),
+            }
+        } else { verdict };
+        out.case("c02 probe unimported-pub-name-of-imported-module", &real);
+        let _ = std::fs::remove_dir_all(root);
+    }
     out.meta(&serde_json::json!({"core_programs": n_core, "probes": c02_probes().len(), "projects": n_proj, "outcome_histogram": hist}));
 }
